@@ -418,8 +418,8 @@ PROPS["C39"] = dict(
 PROPS["C23"] = dict(
     level="exploration",
     technique="property-based testing (rapid) of generated sentinel scenarios in a testing/synctest bubble against a wire-level fake Redis with a sentinel personality (per-sentinel views kept apart from the data nodes' true roles); oracle = per-node server log: ROLE answers per connection option set, sentinel replies and events received, destination of every uniquely keyed user command",
-    level_text="1-3 sentinels with own (stale, wrong or lagging) views, 2-4 data nodes; histories of failovers (each sentinel learns at once, after n more answers or never, with or without +switch-master; promoted node still answering ROLE slave for 0-2 queries), failovers sprung right after a sentinel answered (role flip between the answer and the client's ROLE check), view changes, +sdown/-sdown/+slave/+reboot/+sentinel events, connection kills and refused dials; clients in primary, SendToReplicas and ReplicaOnly mode with traffic through every call type on and around the events. Every user command must be on a node that answered ROLE with the needed role on a connection of that option set and (primary) was named master by a sentinel before; after a received +switch-master and 5 s without change primary traffic must be on the announced master only, and final probes must reach it.",
-    level_note="Scenarios are instantaneous in virtual time and staleness is counted in answers, not in time (the client holds a sync.Mutex across a refresh, which would freeze the virtual clock otherwise); one anchor sentinel always becomes truthful after at most 2 answers, because a refresh that cannot succeed is retried by the client in a hot loop. Events at the same virtual instant as a call are ties (accepted either way): the wrong-role clause judges calls that started strictly after the wrong answer. Connections are attributed to the client's master or replica option set through the *net.Dialer pointer given to DialCtxFn. A ReplicaOnly client keeps its replica after that node is promoted unless a replica event arrives (the property only demands the ROLE answer at selection). Arrival of final probes is demanded only for retried reads when data connections were cut. " + LIMITS,
+    level_text="1-3 sentinels with own (stale, wrong or lagging) views, 2-4 data nodes; histories of failovers (each sentinel learns at once, after n more answers or never, with or without +switch-master; promoted node still answering ROLE slave for 0-2 queries), failovers sprung right after a sentinel answered (role flip between the answer and the client's ROLE check, also for the node the client is already on), failovers sprung by the client's own ROLE query and announced while that refresh is running (+switch-master during a refresh), view changes, +sdown/-sdown/+slave/+reboot/+sentinel events, connection kills and refused dials; clients in primary, SendToReplicas and ReplicaOnly mode with traffic through every call type on and around the events. Every user command must be on a node that answered ROLE with the needed role on a connection of that option set and (primary) was named master by a sentinel before and has answered ROLE as master since the latest such report received before the command; after a received +switch-master and 5 s without change primary traffic must be on the announced master only, and final probes must reach it.",
+    level_note="Scenarios are instantaneous in virtual time and staleness is counted in answers, not in time (the client holds a sync.Mutex across a refresh, which would freeze the virtual clock otherwise); one anchor sentinel always becomes truthful after at most 2 answers, because a refresh that cannot succeed is retried by the client in a hot loop. Events at the same virtual instant are ties (accepted either way): the wrong-role clause judges calls that started strictly after the wrong answer and counts an instant as wrong only if no ROLE answer of that instant had the right role (a SendToReplicas refresh abandons a still running replica check when the master check fails; it may finish in the instant in which a later round adopted the node); the ROLE-after-report clause takes the latest report delivered strictly before the command (reports on a connection that went down in that instant, and runs slowed by the dial-storm brake, are not judged). The +switch-master-during-refresh situation is produced by yielding the scheduler (no virtual time) after the announcement was queued and before the ROLE answer is, with GOMAXPROCS(1). Connections are attributed to the client's master or replica option set through the *net.Dialer pointer given to DialCtxFn. A ReplicaOnly client keeps its replica after that node is promoted unless a replica event arrives (the property only demands the ROLE answer at selection). Arrival of final probes is demanded only for retried reads when data connections were cut. " + LIMITS,
     units=[U("harness", "sentinel", "TestVerif_C23_FollowMaster", T(600, timeout=300), T(2500, shards=16, timeout=1500), variants=QUEUES)],
 )
 
@@ -463,6 +463,11 @@ PROPS["C34"] = dict(
     level_note="Invalidation delivery is the fake server's: PEXPIREAT does not emit an invalidation (Redis does; without NOLOOP that would make every extension re-trigger itself). Server latency is never 0: a waiter that takes a free minority key, fails and releases it wakes itself up through its own invalidation and would spin at one virtual instant. Losses within 50 ms after a connection kill are not judged for promptness (partition). DisableCache (polling) mode is not exercised. The test runs on one P because of a Go 1.25.0 runtime defect (bubble specials allocated without mheap_.speciallock). " + LIMITS,
     units=[U("harness", "props", "TestVerif_C34_Lock", T(1000, timeout=300), T(5000, shards=16, timeout=1500))],
 )
+
+# C28, cluster client: retry policy of clusterClient.Do/DoMulti/DoCache/DoMultiCache (harness/cluster)
+PROPS["C28"]["units"].append(U("harness", "cluster", "TestVerif_C28_ClusterRetry", T(400, timeout=300), T(3000, shards=16, timeout=1500), variants=QUEUES))
+PROPS["C28"]["level_text"] += " Cluster client: the same model over Do/DoMulti/DoCache/DoMultiCache of keyed read-only, write and ToRetryable commands against a fake Redis Cluster, with LOADING/TRYAGAIN/CLUSTERDOWN, ordinary ERR, nil and connection drops per arrival and RetryDelay tables that turn negative after some attempts: every further send of a command needs a retryable failure of the previous one, a retryable command, retries enabled and a non-negative RetryDelay answer for that command in between."
+PROPS["C28"]["level_note"] = PROPS["C28"]["level_note"].replace("Single client in this unit. ", "Single client in the first unit, cluster client in the second (static topology, so redirect rounds do not mix with retry rounds; RetryDelay tables depend on the attempt number only, because a cluster batch is retried with the largest delay of its members). ")
 
 # ---- END PROPS (new entries go above this line)
 
